@@ -137,6 +137,7 @@ type zzG struct {
 	enqueuedShut bool               // ... while the connection was shutting down
 	refusedShut  bool               // my last section ended in a shutting-down state
 	dupSeen      bool               // my first section found otherReq registered
+	doneSeen     bool               // a section of mine ended with done closed (stable: done is monotone)
 	taken        []*incomingRequest // requests I (the dispatcher) took off the queue
 	sections     int
 	onPost       func() // harness-specific establishment checks, run at every release
@@ -264,7 +265,9 @@ func (g *zzG) havoc() {
 		need++
 	}
 	vAssume(othersIn >= need)
-	vSetClosed(c.done, vBool("doneClosed"))
+	// done is monotone (asserted for every step of every thread as C05.done-is-monotone): once this thread has seen it
+	// closed it stays closed in every later state
+	vSetClosed(c.done, g.doneSeen || vBool("doneClosed"))
 	vSetClosed(g.other.ready, vBool("otherRetired"))
 	if g.mine != nil && g.mineReg {
 		vSetClosed(g.mine.ready, g.mineDone || vBool("mineRetired"))
@@ -379,6 +382,7 @@ func (g *zzG) post() {
 	vAssert(!g.hOtherReqIn || otherReqIn, "C02.other-request-entry-untouched")
 	doneNow := vIsClosed(c.done)
 	vAssert(!g.preDone || doneNow, "C05.done-is-monotone")
+	g.doneSeen = g.doneSeen || doneNow
 	// ---- token accounting: I only consume tokens I hold (deltas concretised so the ghosts stay concrete)
 	switch d := s.incoming - g.preIncoming; {
 	case d == 0:
@@ -924,6 +928,9 @@ func zzConnClose() {
 	g.install()
 	g.c.Close() // blocks (allowed) unless done is closed when its first section ends
 	vAssert(marked, "C05.close-marks-closing")
+	// whoever's Close this is — the first, or one overlapping a shutdown already under way — it returns only once the
+	// connection is done: handlers have returned, the transport is closed
+	vAssert(vIsClosed(g.c.done), "C05.close-returns-only-when-the-connection-is-done")
 	vReach("end")
 }
 
